@@ -60,7 +60,14 @@ func ruleRetryUntilDone(r *core.Reporter) {
 		}
 		n++
 		// the batch passed is the function's batch parameter
-		if !strings.Contains(ir.Path(qc.Call.Args[2]), "$"+fn.Params[1].Name()+".URLs") {
+		// (identified by its type — it may be the receiver after a function → method conversion)
+		batchParam := ""
+		for _, prm := range fn.Params {
+			if strings.Contains(strings.ToLower(prm.Type().String()), "batch") {
+				batchParam = prm.Name()
+			}
+		}
+		if batchParam == "" || !strings.Contains(ir.Path(qc.Call.Args[2]), "$"+batchParam+".URLs") {
 			r.Violated(key+"/payload", p.InstrPos(qc), "the sender does not submit its batch's URLs (got %s)", ir.Path(qc.Call.Args[2]))
 		}
 		errNil := func(a ir.Atom) bool {
@@ -261,6 +268,10 @@ func ruleBatchNoLoss(r *core.Reporter) {
 	// dispatchers
 	for _, d := range []struct{ pkg, fn, sender string }{{pkgHQ, "producerDispatcher", "producerSender"}, {pkgHQ, "finisherDispatcher", "finisherSender"}, {pkgLQ, "finisherDispatcher", "finisherSender"}, {pkgLQ, "producerDispatcher", ""}} {
 		fn := p.Func(rel(d.pkg), d.fn)
+		var senderFn *ssa.Function
+		if d.sender != "" {
+			senderFn = p.Func(rel(d.pkg), d.sender) // follows renames and function → method conversions
+		}
 		key := rel(d.pkg) + "." + d.fn
 		if fn == nil {
 			r.Undecided(key, "", "anchor not found")
@@ -304,7 +315,7 @@ func ruleBatchNoLoss(r *core.Reporter) {
 						ok := false
 						allInstrs(t, func(y ssa.Instruction) {
 							if c, isC := y.(*ssa.Call); isC {
-								if f := ir.CalleeOf(c.Common()); f != nil && f.Name() == d.sender {
+								if f := ir.CalleeOf(c.Common()); f != nil && (f.Name() == d.sender || f == senderFn) {
 									ok = true
 								}
 							}
@@ -313,7 +324,7 @@ func ruleBatchNoLoss(r *core.Reporter) {
 					}
 				}
 			case *ssa.Call:
-				if f := ir.CalleeOf(x.Common()); f != nil && (f.Name() == "Add" || f.Name() == d.sender) {
+				if f := ir.CalleeOf(x.Common()); f != nil && (f.Name() == "Add" || f.Name() == d.sender || f == senderFn) {
 					for _, a := range x.Call.Args {
 						if strings.HasPrefix(ir.Path(a), ir.Path(batchVal)) {
 							return true
